@@ -34,3 +34,12 @@ func VerifArg(t base.T, key string, isDefault, isAsterisk bool) base.T {
 	}
 	return *base.MakeKeyValue(key, &t)
 }
+
+// VerifParseArgs feeds an emitted argument list through the real parseArguments.
+func VerifParseArgs(types [][]string, keys []string, defs, asts []bool) []base.T {
+	var args []MethodArgument
+	for i := range types {
+		args = append(args, MethodArgument{Type: TypeSpec(types[i]), Key: keys[i], IsDefault: defs[i], IsAsterisk: asts[i]})
+	}
+	return parseArguments(args)
+}
